@@ -176,13 +176,14 @@ def cases(tier, seed):
                     extra = G.transform_args(op, mode) + ["--rf-over", "0"] + cache
                     out.append(mk(tree_two(L, o), "two", L, o, "metro", "ssd", extra, tr=[op, mode], repeat=2 if cache else 1))
     # equal base names in different directories under a $IN transform and pools of several threads: the private
-    # copies handed to the transform program may not get in each other's way (the program waits 0.15 s before it reads)
+    # copies handed to the transform program may not get in each other's way (the program reads its input only after the programs of all four files have started)
     for L in (10, 5000):
         tree = [{"p": "r/d%d/same.name" % i, "k": "file", "c": (["base", L, 0] if i % 2 == 0 else ["flip", L, 0, L - 1])} for i in range(4)]
         for mode in ("in", "inout"):
             for threads in (["-t", "8"], ["-t", "default:4,4"]):
-                extra = G.transform_args("slowkeep", mode) + ["--rf-over", "0"] + threads
-                c = mk(tree, "plain", L, L - 1, "metro", "ssd", extra, tr=["slowkeep", mode], repeat=2)
+                extra = G.transform_args("barrierkeep", mode) + ["--rf-over", "0"] + threads
+                c = mk(tree, "plain", L, L - 1, "metro", "ssd", extra, tr=["barrierkeep", mode], repeat=2,
+                       env={"FCV_TR_BARRIER_DIR": "@TMPDIR@/../fcv-barrier", "FCV_TR_BARRIER_N": "4"})
                 c["meta"]["same_base_names"] = True
                 out.append(c)
     # a file is rewritten (same length, new mtime) WHILE a cached run works on it - the run is stopped before and after
